@@ -13,7 +13,10 @@ namespace {
 
 static const auto g_processStartTime = std::chrono::steady_clock::now();
 
-static const QChar DEL_MARKER = QChar(0x200B);
+// Number of characters the next literal token has to drop: set by a missing optional attribute
+// (%{attr?N,M}), consumed by the literal that follows it. Kept out of band so that no character
+// of a message or attribute value can be mistaken for it.
+static thread_local int t_pendingRemove = 0;
 
 class Token
 {
@@ -235,11 +238,8 @@ public:
 
     void appendToString(const LogMessage &, QString &dest) const override
     {
-        int removeCount = 0;
-        while (!dest.isEmpty() && dest.at(dest.size() - 1) == DEL_MARKER) {
-            dest.chop(1);
-            removeCount++;
-        }
+        const int removeCount = t_pendingRemove;
+        t_pendingRemove = 0;
 
         if (removeCount > 0 && removeCount < m_text.size()) {
             dest.append(m_text.mid(removeCount));
@@ -752,13 +752,15 @@ public:
             return;
         }
 
-        // Optional attribute not found: remove characters before and add ZWSP markers for removeAfter
-        if (m_removeBefore > 0 && dest.size() >= m_removeBefore) {
-            dest.chop(m_removeBefore);
+        // Optional attribute not found: remove characters before (pending removals of a preceding
+        // optional attribute count as characters, as they always did) and remember removeAfter
+        if (m_removeBefore > 0 && dest.size() + t_pendingRemove >= m_removeBefore) {
+            const int fromPending = qMin(m_removeBefore, t_pendingRemove);
+            t_pendingRemove -= fromPending;
+            dest.chop(m_removeBefore - fromPending);
         }
-        // Append ZWSP markers to signal how many chars to remove from next token
-        for (int i = 0; i < m_removeAfter; ++i) {
-            dest.append(DEL_MARKER);
+        if (m_removeAfter > 0) {
+            t_pendingRemove += m_removeAfter;
         }
     }
 
@@ -948,13 +950,20 @@ public:
         QString result;
         result.reserve(estimatedLength);
 
+        t_pendingRemove = 0;
+
         for (const auto &token : std::as_const(m_tokens)) {
             if (token->checkCondition(lmsg)) {
+                const int sizeBefore = result.size();
                 token->appendToString(lmsg, result);
+                // Only the token directly following a missing optional attribute is affected
+                if (result.size() > sizeBefore) {
+                    t_pendingRemove = 0;
+                }
             }
         }
 
-        result.remove(DEL_MARKER);
+        t_pendingRemove = 0;
 
         return result;
     }
